@@ -35,7 +35,7 @@ RULE = ('checksum: chunk sizes {1,2,7,64,4096,65536,>size,default,-1} x sizes k*
         'hashlib.algorithms_available over the run) + missing file/dir/bad algorithm/chunk 0,-2; last_bytes: sizes {0,1,2,10,4095..4097,70000} x '
         'n in {0,1,size-1,size,size+1,2^40,2^63-1,2^63,2^63+1,-1,-3,random}; ensure_tree/delete_if_exists/write_to_tempfile on real trees: '
         'missing depth 0..4 below existing depth 0..2, existing directory, file at the path, file as an ancestor, random worlds, each run twice '
-        '(idempotence); environment variation (sys.stdin.encoding utf-8/latin-1/ascii/cp1252/None x contents with all 256 byte values, NULs, invalid UTF-8) for write_to_tempfile/checksum/last_bytes; real short writes (RLIMIT_FSIZE in a subprocess, sizes L-1, L, L+1, 2L+1); class x errno injection (OSError(errno), user subclass, errno assigned later, builtin subclass with a foreign errno); short-write injection into os.write (at most 1, 3, 4096 bytes per call) x sizes around the multiples of the limit; fault injection: every errno of errno.errorcode + {0,133,200,9999} + non-OSError x target {dir,file,missing}; '
+        '(idempotence); operation SEQUENCES on one file-system state in one process (the five helpers interleaved with harness-side rmtree / mkdir / put-file / chdir with relative paths; oracle per step = behaviour of a fresh process on the current state); environment variation (sys.stdin.encoding utf-8/latin-1/ascii/cp1252/None x contents with all 256 byte values, NULs, invalid UTF-8) for write_to_tempfile/checksum/last_bytes; real short writes (RLIMIT_FSIZE in a subprocess, sizes L-1, L, L+1, 2L+1); class x errno injection (OSError(errno), user subclass, errno assigned later, builtin subclass with a foreign errno); short-write injection into os.write (at most 1, 3, 4096 bytes per call) x sizes around the multiples of the limit; fault injection: every errno of errno.errorcode + {0,133,200,9999} + non-OSError x target {dir,file,missing}; '
         'distinct = distinct case JSON; trivial = none')
 
 RUN_ROOT = None
@@ -256,8 +256,58 @@ def inj_cases(rng, tier):
                 yield {'op': 'ensure_tree_inj', 'errno': e, 'target': tgt, 'how': 'builtin:' + b}
             yield {'op': 'delete_inj', 'errno': e, 'how': 'builtin:' + b}
 
+SEQ_DIRS = ['', 'w1', 'w1/w2']                      # possible current directories (never removed by the harness steps)
+SEQ_NAMES = ['a', 'a/b', 'a/b/c', 'd1', 'f', 'a/f']
+def _small(rng):
+    return {'hex': bytes(rng.randrange(256) for _ in range(rng.choice([0, 1, 2, 5, 17, 40]))).hex()}
+def _absname(rng):
+    d = rng.choice(SEQ_DIRS)
+    return (d + '/' if d else '') + rng.choice(SEQ_NAMES)
+def seq_cases(rng, tier):
+    W = [['D', 'w1', None], ['D', 'w1/w2', None]]
+    wtt = lambda p, pre='pp': ['wtt', _small(rng), p, rng.choice(['', '.s']), pre]
+    fixed = [
+        [wtt('a/b'), ['rmtree', 'a'], wtt('a/b')],                                   # the tree is removed between two writes
+        [wtt('a'), ['rmtree', 'a'], wtt('a'), ['rmtree', 'a'], ['ens', 'a'], wtt('a')],
+        [wtt('a'), ['put', 'a', _small(rng)], wtt('a'), ['mkdir', 'a'], wtt('a')],   # directory replaced by a file and back
+        [['chdir', 'w1'], wtt('a'), ['chdir', ''], wtt('a'), ['chdir', 'w1/w2'], wtt('a')],   # same relative path, other directory
+        [['chdir', 'w1'], ['ens', 'a/b'], ['chdir', ''], ['ens', 'a/b'], ['rmtree', 'a'], ['ens', 'a/b']],
+        [['ens', 'a/b'], ['rmtree', 'a'], ['ens', 'a/b'], ['put', 'a/b', _small(rng)], ['ens', 'a/b'], ['mkdir', 'a/b'], ['ens', 'a/b']],
+        [['put', 'f', _small(rng)], ['del', 'f'], ['del', 'f'], ['put', 'f', _small(rng)], ['del', 'f'], ['mkdir', 'f'], ['del', 'f'], ['put', 'f/x', _small(rng)], ['del', 'f/x/y']],
+        [['put', 'f', {'hex': '0123456789'}], ['sum', 'f', 2, 'md5'], ['put', 'f', {'hex': '01234567'}], ['sum', 'f', 2, 'md5'], ['rmtree', 'f'], ['sum', 'f', 2, 'md5'],
+         ['put', 'f', {'hex': ''}], ['sum', 'f', 3, 'sha256']],
+        [['put', 'f', {'hex': '00112233445566'}], ['last', 'f', 3], ['put', 'f', {'hex': 'aabb'}], ['last', 'f', 3], ['last', 'f', 0], ['mkdir', 'f'], ['last', 'f', 1]],
+        [wtt(None, 'tmp'), wtt(None, 'tmp'), ['rmtree', 'tmp'], ['mkdir', 'tmp'], wtt(None, 'tmp')],
+    ]
+    for steps in fixed:
+        yield {'op': 'seq', 'world': W, 'steps': steps}
+    for _ in range(120 if tier == 'quick' else 3000):
+        steps = []
+        for _ in range(rng.randint(3, 9)):
+            r = rng.random()
+            p = rng.choice(SEQ_NAMES)
+            if r < 0.22: steps.append(wtt(p if rng.random() < 0.9 else None, rng.choice(['pp', 'tmp', ''])))
+            elif r < 0.34: steps.append(['ens', p])
+            elif r < 0.46: steps.append(['del', p])
+            elif r < 0.54: steps.append(['last', p, rng.choice([0, 1, 3, 100, 2 ** 40])])
+            elif r < 0.62: steps.append(['sum', p, rng.choice([1, 2, 7, 65536]), rng.choice(['md5', 'sha256', 'sha1'])])
+            elif r < 0.72: steps.append(['rmtree', _absname(rng)])
+            elif r < 0.80: steps.append(['mkdir', _absname(rng)])
+            elif r < 0.92: steps.append(['put', _absname(rng), _small(rng)])
+            else: steps.append(['chdir', rng.choice(SEQ_DIRS)])
+        yield {'op': 'seq', 'world': W + (rand_seq_world(rng)), 'steps': steps}
+
+def rand_seq_world(rng):
+    out = []
+    for _ in range(rng.randint(0, 3)):
+        p = _absname(rng)
+        if any(e[1] == p or e[1].startswith(p + '/') or p.startswith(e[1] + '/') for e in out): continue
+        out.append(['D', p, None] if rng.random() < 0.5 else ['F', p, _small(rng)])
+    return out
+
 def gen_cases(rng, tier):
     yield from inj_cases(rng, tier)
+    yield from seq_cases(rng, tier)
     for w, p in tree_scenarios(rng, tier):
         yield {'op': 'ensure_tree', 'world': w, 'path': p}
     for w, p in tree_scenarios(rng, tier):
@@ -394,6 +444,97 @@ def _impl(c):
     finally:
         sys.stdin = saved
 
+def _kind_of(base, rel):
+    """what a root-relative path is right now: D / F / '-' (absent, parents fine or absent) / B (an ancestor is a regular file)"""
+    parts = rel.split('/')
+    for i in range(1, len(parts)):
+        q = os.path.join(base, *parts[:i])
+        if os.path.lexists(q) and not os.path.isdir(q): return 'B'
+    full = os.path.join(base, rel)
+    if os.path.isdir(full): return 'D'
+    if os.path.lexists(full): return 'F'
+    return '-'
+
+def _force_dir(base, rel):
+    parts = rel.split('/')
+    for i in range(1, len(parts) + 1):
+        q = os.path.join(base, *parts[:i])
+        if os.path.lexists(q) and not os.path.isdir(q): os.unlink(q)
+    os.makedirs(os.path.join(base, rel), exist_ok=True)
+
+def _run_sequence(base, c):
+    """several helper calls on ONE file-system state in ONE process, interleaved with changes made by the harness"""
+    import json
+    fu = _fu()
+    mk_world(base, c['world'])
+    saved_tmp, saved_cwd = tempfile.tempdir, os.getcwd()
+    tempfile.tempdir = os.path.join(base, 'tmp')
+    os.chdir(base)
+    cwd = ''                                   # root-relative current directory
+    outs, facts = [], []
+    n0 = nfds()
+    try:
+        for st in c['steps']:
+            k = st[0]
+            rel = lambda p: (cwd + '/' + p) if cwd else p
+            if k in ('rmtree', 'mkdir', 'put', 'chdir'):
+                full = os.path.join(base, st[1]) if st[1] else base
+                if k == 'rmtree':
+                    if os.path.isdir(full) and not os.path.islink(full): shutil.rmtree(full)
+                    elif os.path.lexists(full): os.unlink(full)
+                elif k == 'mkdir': _force_dir(base, st[1])
+                elif k == 'put':
+                    if '/' in st[1]: _force_dir(base, st[1].rsplit('/', 1)[0])
+                    if os.path.isdir(full): shutil.rmtree(full)
+                    with open(full, 'wb') as f: f.write(content_of(st[2]))
+                elif k == 'chdir':
+                    if os.path.isdir(full): os.chdir(full); cwd = st[1]
+                outs.append('-'); facts.append({'k': k})
+                continue
+            before = dict(e.split(':', 1) for e in (x[2:] for x in dump_world(base)))
+            before_k = {x[2:].split(':', 1)[0]: x[0] for x in dump_world(base)}
+            if k == 'wtt':
+                _, cd, path, suf, pre = st
+                target = rel(path) if path is not None else 'tmp'
+                fact = {'k': k, 'pre': _kind_of(base, target), 'target': target}
+                content = content_of(cd)
+                kw = {'suffix': suf, 'prefix': pre}
+                if path is not None: kw['path'] = path
+                r = outcome(lambda: fu.write_to_tempfile(content, **kw), lambda p: os.path.relpath(p, base))
+                if r.startswith('OK:'):
+                    newp = r[3:]
+                    full = os.path.join(base, newp)
+                    fact['existed'] = newp in before_k
+                    fact['content_ok'] = os.path.isfile(full) and open(full, 'rb').read() == content
+                    b = os.path.basename(newp)
+                    fact['placed_ok'] = os.path.dirname(newp) == target and b.startswith(pre) and b.endswith(suf)
+                    fact['isdir_after'] = os.path.isdir(os.path.join(base, target))
+            elif k in ('ens', 'del'):
+                target = rel(st[1])
+                fact = {'k': k, 'pre': _kind_of(base, target), 'target': target}
+                r = outcome((lambda: fu.ensure_tree(st[1])) if k == 'ens' else (lambda: fu.delete_if_exists(st[1])))
+                fact['isdir_after'] = os.path.isdir(os.path.join(base, target))
+                fact['exists_after'] = os.path.lexists(os.path.join(base, target))
+            else:
+                target = rel(st[1])
+                kd = _kind_of(base, target)
+                fact = {'k': k, 'pre': kd, 'target': target}
+                if kd == 'F':
+                    with open(os.path.join(base, target), 'rb') as f: fact['cur'] = f.read().hex()
+                if k == 'last':
+                    r = outcome(lambda: fu.last_bytes(st[1], st[2]), lambda v: '%d:%s' % (v[1], v[0].hex()))
+                else:
+                    r = outcome(lambda: fu.compute_file_checksum(st[1], st[2], st[3]), lambda v: v)
+                    if r.startswith('OK:'): fact['hex'] = r[3:]; r = 'OK:'
+            after = dict(e.split(':', 1) for e in (x[2:] for x in dump_world(base)))
+            fact['kept'] = all(after.get(p) == v for p, v in before.items() if not (k == 'del' and p == fact['target']))
+            outs.append(r); facts.append(fact)
+        os.chdir(base)
+        return '%s;; %s FACTS=%s' % (';;'.join(outs), fmt_world(dump_world(base), nfds() - n0), json.dumps(facts, separators=(',', ':')))
+    finally:
+        os.chdir(saved_cwd)
+        tempfile.tempdir = saved_tmp
+
 def _impl2(c):
     fu = _fu()
     op = c['op']
@@ -458,6 +599,8 @@ def _impl2(c):
             return '%s %s' % (r, fmt_world(dump_world(base), nfds() - n0))
         if op == 'write_rlimit':
             return _write_under_rlimit(base, c)
+        if op == 'seq':
+            return _run_sequence(base, c)
         if op == 'checksum':
             mk_world(base, _file_world(c))
             p = _target_path(base, c)
@@ -519,6 +662,18 @@ def encode(c):
         suf, pre = c['suffix'], c['prefix']
         if '/' in suf or '/' in pre: return None
         return [op, content_of(c['content']), '1' if c['path'] is not None else '0', c['path'] or '', suf, pre, lim] + _enc_world(world_entries(c))
+    if op == 'seq':
+        ents = world_entries(c)
+        args = ['seq', str(len(ents))] + _enc_world(ents)
+        for st in c['steps']:
+            k = st[0]
+            if k == 'wtt': a = [content_of(st[1]), '1' if st[2] is not None else '0', st[2] or '', st[3], st[4]]
+            elif k in ('ens', 'del', 'rmtree', 'mkdir', 'chdir'): a = [st[1]]
+            elif k == 'last': a = [st[1], str(st[2])]
+            elif k == 'sum': a = [st[1], str(st[2]), st[3]]
+            elif k == 'put': a = [st[1], content_of(st[2])]
+            args += [k] + a + [''] * (5 - len(a))
+        return args
     if op in ('checksum', 'last_bytes'):
         ents = world_entries({'world': _file_world(c)})
         p = {'file': 'f', 'missing': 'nope', 'dir': 'tmp', 'under_file': 'f/x'}[c.get('target', 'file')]
@@ -551,8 +706,25 @@ def _canon_tmp(c, s):
             ents = [('F:' + q + ':' + e[len('F:' + p + ':'):]) if e.startswith('F:' + p + ':') else e for e in ents]
     return '%s %s %s' % (head, '|'.join(sorted(ents)), rest)
 
+def _canon_seq(c, s):
+    """wildcard the generated part of every temp-file name in the step outcomes and in the final listing"""
+    head, ents, rest = _split_world(s)
+    if ents is None: return s
+    outs = head.split(';;')
+    for i, st in enumerate(c['steps']):
+        if st[0] == 'wtt' and i < len(outs) and outs[i].startswith('OK:'):
+            p = outs[i][3:]
+            d, _, b = p.rpartition('/')
+            suf, pre = st[3], st[4]
+            if b.startswith(pre) and b.endswith(suf) and len(b) > len(pre) + len(suf):
+                q = (d + '/' if d else '') + pre + '*' + suf
+                outs[i] = 'OK:' + q
+                ents = [('F:' + q + ':' + e[len('F:' + p + ':'):]) if e.startswith('F:' + p + ':') else e for e in ents]
+    return '%s %s %s' % (';;'.join(outs), '|'.join(sorted(ents)), rest)
+
 def decode(c, out):
     op = c['op']
+    if op == 'seq': return _canon_seq(c, out)
     if op in ('ensure_tree', 'delete_if_exists'):
         head, ents, rest = _split_world(out)
         if ents is None: return out
@@ -563,6 +735,8 @@ def decode(c, out):
 
 def project(c, io):
     op = c['op']
+    if op == 'seq':
+        return _canon_seq(c, io[:io.index(' FACTS=')]) if ' FACTS=' in io else io
     if op in ('ensure_tree', 'delete_if_exists'):
         return io[:io.index(' RAW=')]
     if op == 'write_to_tempfile':
@@ -660,6 +834,46 @@ def oracle(c, io):
         else:
             if after != before and op == 'delete_if_exists': return 'failed delete_if_exists(%r) changed the tree' % p
         return None
+    if op == 'seq':
+        # every call must behave as it would in a fresh process, given the CURRENT state of the file system
+        import json
+        if ' FACTS=' not in io: return 'sequence did not complete: %s' % io[:200]
+        main, _, fj = io.partition(' FACTS=')
+        facts = json.loads(fj)
+        outs = main.split(' ', 1)[0].split(';;')
+        for i, (st, f) in enumerate(zip(c['steps'], facts)):
+            k, r = st[0], outs[i]
+            if k in ('rmtree', 'mkdir', 'put', 'chdir'): continue
+            where = 'step %d %s on %r (%s there)' % (i, k, f['target'], {'D': 'a directory', 'F': 'a regular file', '-': 'nothing', 'B': 'a regular file above'}[f['pre']])
+            if not f.get('kept', True): return where + ': something that existed was changed'
+            if k == 'wtt':
+                if f['pre'] in 'D-':
+                    if not r.startswith('OK:'): return where + ': %s, expected a new file' % r
+                    if f['existed'] or not f['content_ok'] or not f['placed_ok'] or not f['isdir_after']:
+                        return where + ': new file wrong (%s)' % json.dumps({x: f[x] for x in ('existed', 'content_ok', 'placed_ok', 'isdir_after')})
+                elif not r.startswith('OSERR:'): return where + ': %s, expected the error to be re-raised' % r
+            elif k == 'ens':
+                if f['pre'] in 'D-':
+                    if r != 'OK:' or not f['isdir_after']: return where + ': %s, isdir afterwards %s' % (r, f['isdir_after'])
+                elif f['pre'] == 'F':
+                    if not r.startswith('OSERR:%d:' % errno.EEXIST): return where + ': %s, expected EEXIST re-raised' % r
+                elif not r.startswith('OSERR:'): return where + ': %s, expected an OSError' % r
+            elif k == 'del':
+                if f['pre'] in 'F-':
+                    if r != 'OK:' or f['exists_after']: return where + ': %s, exists afterwards %s' % (r, f['exists_after'])
+                elif not r.startswith('OSERR:') or r.startswith('OSERR:%d:' % errno.ENOENT): return where + ': %s, expected the error to be re-raised' % r
+            elif k == 'last':
+                if f['pre'] == 'F':
+                    cur = bytes.fromhex(f['cur']); n = st[2]; m = min(n, len(cur))
+                    want = 'OK:%d:%s' % (len(cur) - m, cur[len(cur) - m:].hex())
+                    if 0 <= n <= OFF_MAX and r != want: return where + ': last_bytes(%d) gives %s, the file now holds %d bytes' % (n, r[:60], len(cur))
+                elif not r.startswith('OSERR:'): return where + ': %s' % r
+            elif k == 'sum':
+                if f['pre'] == 'F':
+                    want = hashlib.new(st[3], bytes.fromhex(f['cur'])).hexdigest()
+                    if r != 'OK:' or f.get('hex') != want: return where + ': checksum %s %s is not the digest of the current content' % (r, f.get('hex'))
+                elif not r.startswith('OSERR:'): return where + ': %s' % r
+        return None
     if op == 'write_rlimit':
         # "holding exactly the content": under a real short write either an exception propagates or everything is stored —
         # never a silently shorter file
@@ -699,6 +913,7 @@ def oracle(c, io):
 
 def classify(c, io):
     op = c['op']
+    if op == 'seq': return 'seq:%d' % min(len(c['steps']), 9)
     if op == 'checksum': return 'checksum:' + ('exn' if not io.startswith('OK') else 'default' if c['chunk'] is None else 'chunk')
     if op == 'last_bytes': return 'last_bytes:' + ('exn' if not io.startswith('OK') else 'fallback' if c['num'] > len(content_of(c['content'])) else 'seek')
     return op + (':short' if c.get('wlimit') else '') + (':env' if c.get('stdin_enc') else '') + ':' + io.split(':', 1)[0].split(' ')[0]
